@@ -15,6 +15,7 @@ import EPV.Lemmas.CompareBasic
 import EPV.Lemmas.CompareFindings
 import EPV.Lemmas.CompareOrder
 import EPV.Lemmas.CompareGeneral
+import EPV.Lemmas.CompareCompat
 namespace EPV.C07
 open EPV.Cmp EPV.CmpSpec EPV.CmpFind
 
@@ -100,9 +101,10 @@ example : generalCmp .v2 .eq [.atom (.int 1), .atom (.str [97])] [.atom (.int 1)
 in the lexical fragment on which model and specification are defined -/
 def PairClean (m : Mode) (op : Op) (a b : Atom) : Prop :=
   CmpFind.trigTol false op a b = false ∧ CmpFind.trigPromotion false a b = false ∧
-  CmpFind.trigLenient m op a b = false ∧ CmpFind.trigUntyped op a b = false ∧
+  CmpFind.trigLenient m op a b = false ∧
+  (CmpFind.trigUntyped op a b = false ∧ CmpFind.trigUntypedQN m a b = false) ∧
   pairSpec m op a b ≠ .error .unsupported ∧ pairGeneral m op a b ≠ .error .unsupported ∧
-  ymdOrd op a b = false ∧ CmpFind.atomTzOK a = true ∧ CmpFind.atomTzOK b = true
+  CmpFind.atomTzOK a = true ∧ CmpFind.atomTzOK b = true
 
 /-- PARTIAL (findings F07, F07-promotion, F07-lenient, F07-untyped).  One pair of a general
 comparison, any two atoms of the 17 types (untypedAtomic included), any operator: outside the four
@@ -113,15 +115,16 @@ by the value comparison of §3.7.1: the same boolean, FORG0001 for a failed cast
 incomparable types.  The full statement is false: see the `*_witness` theorems below. -/
 theorem general_pair_conforms_partial (m : Mode) (op : Op) (a b : Atom) (h : PairClean m op a b) :
     pairGeneral m op a b = pairSpec m op a b :=
-  pairGeneral_conforms m op a b h.1 h.2.1 h.2.2.1 h.2.2.2.1 h.2.2.2.2.1 h.2.2.2.2.2.1 h.2.2.2.2.2.2.1
-    (dtConsistent_of_tzOK a b h.2.2.2.2.2.2.2.1 h.2.2.2.2.2.2.2.2)
+  pairGeneral_conforms m op a b h.1 h.2.1 h.2.2.1 h.2.2.2.1.1 h.2.2.2.2.1 h.2.2.2.2.2.1
+    (dtConsistent_of_tzOK a b h.2.2.2.2.2.2.1 h.2.2.2.2.2.2.2) h.2.2.2.1.2
 
 /-- the hypothesis is satisfiable on non-trivial pairs: untyped "10" < 9 (cast to double), untyped
-" true " = true() (cast to boolean), "abc" < anyURI "abd", hexBinary in 3.1 -/
+" true " = true() (cast to boolean), "abc" < anyURI "abd", hexBinary in 3.1, untyped "a" = QName a (3.1) -/
 example : PairClean .v2 .lt (.ua [49, 48]) (.int 9) ∧ pairGeneral .v2 .lt (.ua [49, 48]) (.int 9) = .ok false ∧
     PairClean .v2 .eq (.ua [32, 116, 114, 117, 101, 32]) (.bool true) ∧
     PairClean .v31 .lt (.str [97, 98, 99]) (.uri [97, 98, 100]) ∧
-    PairClean .v31 .lt (.hex [1, 2]) (.hex [1, 3]) := by
+    PairClean .v31 .lt (.hex [1, 2]) (.hex [1, 3]) ∧
+    PairClean .v31 .eq (.ua [97]) (.qn [] [] [97]) ∧ pairGeneral .v31 .eq (.ua [97]) (.qn [] [] [97]) = .ok true := by
   unfold PairClean; decide +kernel
 
 /-- HEADLINE, against the specification.  PARTIAL (same findings).  For XPath2Parser / XPath31Parser
@@ -152,6 +155,45 @@ theorem general_cmp_conforms_partial (m : Mode) (op : Op) (L Rr : List Item) (hm
     rcases hm with rfl | rfl <;> simp [generalAllowed, hat, hprod]
   rw [hga, hmap, general_is_any m op L Rr hcompat]
   exact anyPairs_in_allowed (pairGeneral m op) _ (fun p hp => (hps p hp).2.2.2.2.2.1)
+
+/-! ## XPath 1.0 parser against XPath 1.0 §3.4 -/
+
+/-- PARTIAL (finding F07-compat).  XPath1Parser, any of the six operators, any two operands that are
+XPath 1.0 objects — a node-set of any size (its nodes' string values), a number, a string, a boolean:
+outside the F07-compat trigger (a decidable predicate of the operands: a boolean against an empty /
+multi-item / node operand or under an ordering operator; an ordering operator with an item that
+`float()` rejects or reads differently from `number()`; `=`/`!=` between a number and a string or
+node; an integer that is not exactly a double) the code returns exactly the boolean XPath 1.0 §3.4
+prescribes (`cmp1`: node-set rules, then boolean / number / string conversions).  Inside the trigger
+the code deviates: `compat_witness`. -/
+theorem compat_v1_conforms_partial (op : Op) (L Rr : List Item) (allowed : List Out)
+    (hs : generalAllowed .v1 op L Rr = some allowed)
+    (ht : CmpFind.trigCompat .v1 op (L.map (atomize .v1)) (Rr.map (atomize .v1))
+      (L.any CmpFind.isNode) (Rr.any CmpFind.isNode) = false) :
+    outOfR (generalCmp .v1 op L Rr) ∈ allowed := by
+  simp only [generalAllowed] at hs
+  cases hL : obj1 L with
+  | none => simp [hL] at hs
+  | some a =>
+    cases hR : obj1 Rr with
+    | none => simp [hL, hR] at hs
+    | some b =>
+      cases hv : cmp1 op a b with
+      | none => simp [hL, hR, hv] at hs
+      | some v =>
+        simp [hL, hR, hv] at hs
+        subst hs
+        rw [compat_v1_conforms op L Rr a b v hL hR hv ht]
+        cases v <;> simp [outOfR, Out.ofBool]
+
+/-- the hypotheses are satisfiable on non-trivial operands: a node-set of three nodes `< 2.5`, two
+node-sets under `=`, `true() = 'x'` -/
+example :
+    CmpFind.trigCompat .v1 .lt ([.node [49], .node [51], .node [50]].map (atomize .v1)) ([.atom (.dbl (.fin (5/2)))].map (atomize .v1)) true false = false ∧
+    generalCmp .v1 .lt [.node [49], .node [51], .node [50]] [.atom (.dbl (.fin (5/2)))] = .ok true ∧
+    generalAllowed .v1 .lt [.node [49], .node [51], .node [50]] [.atom (.dbl (.fin (5/2)))] = some [.t] ∧
+    CmpFind.trigCompat .v1 .eq ([.node [97], .node [98]].map (atomize .v1)) ([.node [98]].map (atomize .v1)) true true = false ∧
+    CmpFind.trigCompat .v1 .eq [.bool true] [.str [120]] false false = false := by decide +kernel
 
 /-! ## effective boolean value -/
 
@@ -291,17 +333,17 @@ untypedAtomic already turned into a string as get_atomized_operand does), every 
 under eq/ne) that differ but are `isclose`; a mixed numeric pair whose xs:float promotion differs
 between binary32 and binary64 — and no integer overflows the double range, the code's value
 comparison returns exactly what XPath 3.1 §3.7.1 + B.2 says: the same boolean, or XPTY0004 on
-exactly the incomparable type pairs.  (Ordering of two yearMonthDurations goes through calendar
-arithmetic and is excluded: `ymdOrd`.)  The full statement (no trigger hypotheses) is false:
+exactly the incomparable type pairs (ordering of yearMonthDurations, which the code computes through
+four `months2days` calendar offsets, included: `durCmp4_ymd`).  The full statement (no trigger hypotheses) is false:
 `double_eq_tolerance_witness`, `float_promotion_witness`.
 (string/untyped against QName is covered at full strength since the `fix:` commit for F07-qname.) -/
 theorem value_cmp_conforms_partial (m : Mode) (op : Op) (a b : Atom)
     (hua : isUA a = false) (hub : isUA b = false)
     (hTol : trigTol true op a b = false) (hProm : trigPromotion true a b = false)
     (hOva : ∀ e, getDouble a ≠ .error e) (hOvb : ∀ e, getDouble b ≠ .error e)
-    (hY : ymdOrd op a b = false) (hTa : atomTzOK a = true) (hTb : atomTzOK b = true) :
+    (hTa : atomTzOK a = true) (hTb : atomTzOK b = true) :
     valuePair m op a b = valueOp (binOrdered m) op a b :=
-  valuePair_conforms m op a b hua hub hTol hProm hOva hOvb hY (dtConsistent_of_tzOK a b hTa hTb)
+  valuePair_conforms m op a b hua hub hTol hProm hOva hOvb (dtConsistent_of_tzOK a b hTa hTb)
 
 /-- the hypotheses are satisfiable on non-trivial pairs: 2^53+1 against a double, a decimal against a
 float, two different close-but-not-too-close doubles -/
@@ -315,9 +357,9 @@ theorem incomparable_XPTY0004 (m : Mode) (op : Op) (a b : Atom)
     (hua : isUA a = false) (hub : isUA b = false)
     (hTol : trigTol true op a b = false) (hProm : trigPromotion true a b = false)
     (hOva : ∀ e, getDouble a ≠ .error e) (hOvb : ∀ e, getDouble b ≠ .error e)
-    (hY : ymdOrd op a b = false) (hTa : atomTzOK a = true) (hTb : atomTzOK b = true) :
+    (hTa : atomTzOK a = true) (hTb : atomTzOK b = true) :
     valuePair m op a b = .error .XPTY0004 ↔ valueOp (binOrdered m) op a b = .error .XPTY0004 := by
-  rw [valuePair_conforms m op a b hua hub hTol hProm hOva hOvb hY (dtConsistent_of_tzOK a b hTa hTb)]
+  rw [valuePair_conforms m op a b hua hub hTol hProm hOva hOvb (dtConsistent_of_tzOK a b hTa hTb)]
 
 /-- one representative atom per type -/
 def reps : List Atom :=
@@ -349,7 +391,7 @@ theorem value_seq_conforms_partial (m : Mode) (op : Op) (L Rr : List Item) (hm :
     (hpair : ∀ x y, L = [x] → Rr = [y] →
       let a := castUAStr (atomize m x); let b := castUAStr (atomize m y)
       trigTol true op a b = false ∧ trigPromotion true a b = false ∧
-      (∀ e, getDouble a ≠ .error e) ∧ (∀ e, getDouble b ≠ .error e) ∧ ymdOrd op a b = false ∧
+      (∀ e, getDouble a ≠ .error e) ∧ (∀ e, getDouble b ≠ .error e) ∧
       atomTzOK a = true ∧ atomTzOK b = true ∧ valueOp (binOrdered m) op a b ≠ .error .unsupported) :
     ∃ allowed, valueAllowed m op L Rr = some allowed ∧ outOfOR (valueCmp m op L Rr) ∈ allowed := by
   have hat : ∀ x, atomizeS m x = atomize m x := by intro x; cases x <;> rfl
@@ -370,8 +412,8 @@ theorem value_seq_conforms_partial (m : Mode) (op : Op) (L Rr : List Item) (hm :
   | _ :: _ :: _, [y] => simp [valueAllowed, hm, valueCmp, atomizedOperand, outOfOR]
   | _ :: _ :: _, _ :: _ :: _ => simp [valueAllowed, hm, valueCmp, atomizedOperand, outOfOR]
   | [x], [y] =>
-    obtain ⟨h1, h2, h4, h5, h6, h8, h9, h7⟩ := hpair x y rfl rfl
-    have hc := valuePair_conforms m op _ _ (hcast (atomize m x)) (hcast (atomize m y)) h1 h2 h4 h5 h6
+    obtain ⟨h1, h2, h4, h5, h8, h9, h7⟩ := hpair x y rfl rfl
+    have hc := valuePair_conforms m op _ _ (hcast (atomize m x)) (hcast (atomize m y)) h1 h2 h4 h5
       (dtConsistent_of_tzOK _ _ h8 h9)
     simp only [valueAllowed, hm, valueCmp, hop, hat, hcs, hc, List.isEmpty_cons, List.length_cons,
       List.length_nil, Bool.or_self, Bool.false_eq_true]
@@ -407,7 +449,7 @@ theorem value_cmp_order_partial :
   intro m op x y h
   have := valuePair_conforms m op (.dbl x) (.dbl y) rfl rfl (by simp [trigTol, h])
     (by simp [trigPromotion, promRank, numRank])
-    (by simp [getDouble]) (by simp [getDouble]) rfl rfl
+    (by simp [getDouble]) (by simp [getDouble]) rfl
   simpa [valueOp, numRank, castNum] using this
 
 /-- the hypothesis is satisfiable with different values: 1 and 1 + 2^-23 are not close -/
@@ -420,7 +462,7 @@ theorem value_cmp_order_float_partial (m : Mode) (op : Op) (x y : D)
     valuePair m op (.flt x) (.flt y) = .ok (six numLt numEq op x y) := by
   have := valuePair_conforms m op (.flt x) (.flt y) rfl rfl (by simpa [trigTol] using h)
     (by simp [trigPromotion, promRank, numRank])
-    (by simp [getDouble]) (by simp [getDouble]) rfl rfl
+    (by simp [getDouble]) (by simp [getDouble]) rfl
   simpa [valueOp, numRank, castNum] using this
 
 /-- NaN is unequal to, and unordered with, every numeric value — also across types (the tolerance
@@ -435,14 +477,14 @@ theorem nan_unequal_to_everything (m : Mode) (op : Op) (b : Atom) (hb : isNumCls
       (by cases b <;> simp [trigTol, tolClose, (hc _).1])
       (by cases b <;> simp [trigPromotion, promRank, numRank, exactVal, castNum])
       (by simp [getDouble]) hov
-      (by cases b <;> rfl) (by cases b <;> rfl)
+      (by cases b <;> rfl)
     rw [this]
     cases b <;> simp [isNumCls] at hb <;> simp [valueOp, numRank, castNum, (nan_six op _).1]
   · have := valuePair_conforms m op b (.dbl .nan) (by cases b <;> simp_all [isNumCls, isUA]) rfl
       (by cases b <;> simp [trigTol, tolClose, (hc _).2])
       (by cases b <;> simp [trigPromotion, promRank, numRank, exactVal, castNum])
       hov (by simp [getDouble])
-      (by cases b <;> rfl) (by cases b <;> rfl)
+      (by cases b <;> rfl)
     rw [this]
     cases b <;> simp [isNumCls] at hb <;> simp [valueOp, numRank, castNum, (nan_six op _).2]
 
@@ -458,7 +500,7 @@ theorem value_cmp_order_string :
   intro m op s t
   refine ⟨?_, ?_, ?_, ?_⟩ <;>
   · rw [valuePair_conforms m op _ _ rfl rfl rfl (by simp [trigPromotion, promRank, numRank])
-      (by simp [getDouble]) (by simp [getDouble]) rfl rfl]
+      (by simp [getDouble]) (by simp [getDouble]) rfl]
     simp [valueOp, numRank]
 
 /-- booleans: false < true -/
@@ -469,7 +511,7 @@ theorem value_cmp_order_boolean :
   refine ⟨?_, boolLaws⟩
   intro m op x y
   rw [valuePair_conforms m op _ _ rfl rfl rfl (by simp [trigPromotion, promRank, numRank])
-    (by simp [getDouble]) (by simp [getDouble]) rfl rfl]
+    (by simp [getDouble]) (by simp [getDouble]) rfl]
   simp [valueOp, numRank]
 
 /-- dates, dateTimes, times (same kind; each value carries its local clock reading and an optional
@@ -495,11 +537,11 @@ theorem value_cmp_order_temporal :
     have h := dtFarOK_of_tzOK x y hx hy
     refine ⟨?_, ?_, ?_⟩ <;>
     · rw [valuePair_conforms m op _ _ rfl rfl rfl (by simp [trigPromotion, promRank, numRank])
-        (by simp [getDouble]) (by simp [getDouble]) rfl (by simpa [dtConsistent, Atom.isDT, Atom.dt] using h)]
+        (by simp [getDouble]) (by simp [getDouble]) (by simpa [dtConsistent, Atom.isDT, Atom.dt] using h)]
       simp [valueOp, numRank]
   · intro m op s t
     rw [valuePair_conforms m op _ _ rfl rfl rfl (by simp [trigPromotion, promRank, numRank])
-      (by simp [getDouble]) (by simp [getDouble]) rfl rfl]
+      (by simp [getDouble]) (by simp [getDouble]) rfl]
     simp [valueOp, numRank]
 
 /-- the year-boundary case that a "compare the year numbers first" implementation gets wrong:
@@ -513,6 +555,39 @@ example :
     valuePair .v2 .gt (.dtm a) (.dtm b) = .ok true ∧ valuePair .v2 .lt (.dtm a) (.dtm b') = .ok false ∧
     pairGeneral .v31 .ge (.dtm b) (.dtm a) = .ok false := by decide +kernel
 
+/-- DURATIONS.  `eq`/`ne` between any two durations (xs:duration, yearMonthDuration, dayTimeDuration,
+in any combination) compare (months, seconds); `lt`/`le`/`gt`/`ge` are the order of the months between
+two yearMonthDurations (the code's four-reference-date comparison through `months2days` is proved
+strictly monotone) and of the seconds between two dayTimeDurations; every other ordering between
+durations raises XPTY0004. -/
+theorem value_cmp_order_duration (m : Mode) (op : Op) :
+    (∀ a b : Int, valuePair m op (.ymd a) (.ymd b) =
+      .ok (six (fun p q => decide (p < q)) (fun p q => decide (p = q)) op a b)) ∧
+    (∀ a b : Atom, a.isDur = true → b.isDur = true → op.isEqNe = true →
+      valuePair m op a b = .ok (six (fun _ _ => false) (fun (p q : Int × Int) => decide (p = q)) op a.durVal b.durVal)) ∧
+    (∀ a b : Atom, a.isDur = true → b.isDur = true → op.isOrd = true →
+      (match a, b with | .ymd _, .ymd _ => false | .dtd _, .dtd _ => false | _, _ => true) = true →
+      valuePair m op a b = .error .XPTY0004) := by
+  have hc : ∀ a b : Atom, a.isDur = true → b.isDur = true → valuePair m op a b = valueOp (binOrdered m) op a b := by
+    intro a b ha hb
+    exact valuePair_conforms m op a b (by cases a <;> simp_all [Atom.isDur, isUA])
+      (by cases b <;> simp_all [Atom.isDur, isUA])
+      (by cases a <;> cases b <;> simp_all [Atom.isDur, trigTol])
+      (by cases a <;> cases b <;> simp_all [Atom.isDur, trigPromotion, promRank, numRank])
+      (by cases a <;> simp_all [Atom.isDur, getDouble]) (by cases b <;> simp_all [Atom.isDur, getDouble])
+      (by cases a <;> cases b <;> simp_all [Atom.isDur, dtConsistent, Atom.isDT])
+  refine ⟨?_, ?_, ?_⟩
+  · intro a b
+    rw [hc _ _ rfl rfl]; simp [valueOp, numRank]
+  · intro a b ha hb ho
+    rw [hc a b ha hb]
+    cases a <;> simp [Atom.isDur] at ha <;> cases b <;> simp [Atom.isDur] at hb <;>
+      cases op <;> simp [Op.isEqNe] at ho <;> simp [valueOp, numRank, isEqNe, Atom.isDur, six, Atom.durVal]
+  · intro a b ha hb ho hk
+    rw [hc a b ha hb]
+    cases a <;> simp [Atom.isDur] at ha <;> cases b <;> simp [Atom.isDur] at hb <;> simp at hk <;>
+      cases op <;> simp [Op.isOrd] at ho <;> simp [valueOp, numRank, isEqNe, Atom.isDur]
+
 /-- binaries: equality of the octets everywhere; with a 3.1 parser the lexicographic octet order -/
 theorem value_cmp_order_binary :
     (∀ (m : Mode) (op : Op) (x y : List Nat), (op.isEqNe = true ∨ m = .v31) →
@@ -523,7 +598,7 @@ theorem value_cmp_order_binary :
   intro m op x y h
   constructor <;>
   · rw [valuePair_conforms m op _ _ rfl rfl rfl (by simp [trigPromotion, promRank, numRank])
-      (by simp [getDouble]) (by simp [getDouble]) rfl rfl]
+      (by simp [getDouble]) (by simp [getDouble]) rfl]
     rcases h with h | h
     · cases op <;> simp_all [valueOp, numRank, Op.isEqNe, isEqNe]
     · subst h; simp [valueOp, numRank, binOrdered]
